@@ -131,6 +131,7 @@ def gen_words(chk, mc, quick):
     # (4) thread-state preconditions
     for (a, b, ch, lab) in rng.sample(P, min(len(P), 8 if quick else len(P))):
         out.append({"kind": "state-paused", "word": ["OHp", a, "OHr"], "lint": False})
+        out.append({"kind": "state-paused-closed", "word": ["OHp", a, b, "OHr"], "lint": False})
         out.append({"kind": "state-cooling", "word": ["OHc", a, b, "OHp", "OHr"], "lint": False})
         out.append({"kind": "state-warming", "word": ["OHp", "OHw", a, b, "OHr"], "lint": False})
         out.append({"kind": "state-out-of-cpu", "word": ["KCO", a, b, "KCI"], "lint": False})
